@@ -4,12 +4,16 @@
 
      reg   the model's hard references   (Model._agents, a dict in insertion order)
      ext   references the program holds  (a multiset: one entry per reference)
-     cur   the agent bound to the local variable `agent` of the running do/shuffle_do/map frame
+     cur   the agent bound to the local `agent` of every running do/shuffle_do/map frame (a stack:
+           a callback may start an activation of its own)
      sets  every AgentSet in play: Model._all_agents (SAll), Model._agents_by_type[c] (SType c) and
            the program's own sets (SUser k); each is a WeakKeyDictionary = keys in insertion order
            from which a key disappears at the moment its agent dies (`sweep`).
 
-   An agent is alive iff some strong reference exists: alive a := a in reg \/ a in ext \/ cur = a.
+   An agent is alive iff some strong reference exists: alive a := a in reg \/ a in ext \/ a in cur.
+   A callback may raise (Raise: the loop is left at once, the exception travels through every running
+   activation) and may start an activation itself (Nested; the agents called there run a second,
+   level-0 script).
    do/map:      for agentref in self._agents.keyrefs(): if (agent := agentref()) is not None: call
    shuffle_do:  weakrefs = list(keyrefs()); self.random.shuffle(weakrefs); same loop over weakrefs
    The permutation chosen by random.shuffle is an input (`perm`), checked to be a permutation of the
